@@ -45,14 +45,14 @@ def exhaustive():
             cand.update([max(0, t - 1), t, t + 1])
         leaves += [('time', T) for T in sorted(cand)]
         for lf in leaves:
-            s2 = R.Script(s.n, s.t, s.start, s.budget, [('limit', lf)], s.table, s.pre, [])
+            s2 = R.Script(s.n, s.t, s.start, s.budget, [('limit', lf)], s.table, s.pre, [], unit=s.unit)
             yield s2.encode()
         if len(s.pre) <= 2:
             for a in leaves:
                 for b in leaves:
                     if a[0] != b[0]:
                         for k in ('and', 'or'):
-                            yield R.Script(s.n, s.t, s.start, s.budget, [('limit', (k, a, b))], s.table, s.pre, []).encode()
+                            yield R.Script(s.n, s.t, s.start, s.budget, [('limit', (k, a, b))], s.table, s.pre, [], unit=s.unit).encode()
 
 
 monitor = R.monitor_c11
